@@ -85,8 +85,45 @@ class Station:
         stack.set_ego(self.router, ego[0], ego[1], pai=ego_pai, tst=self.ego[3])
         self.ego0 = list(self.ego)
         self.inds = []
-        self.router.register_indication_callback(self.inds.append)
+        self.btp = None
+        self.btp_deliveries = []           # (port, BTPDataIndication) handed to registered handlers
+        self.router.register_indication_callback(self._on_indication)
         self.positions = {(ego[0], ego[1])}
+        self.rec_events, self.rec_obs, self.rec_geos, self.rec_nears = [], [], [], []
+
+    def _on_indication(self, ind):
+        self.inds.append(ind)
+        if self.btp is not None:
+            self.btp.btp_data_indication(ind)
+
+    def attach_btp(self, ports):
+        """a real BTP router on top, with recording handlers on the given ports"""
+        from flexstack.btp.router import Router as BTPRouter
+        self.btp = BTPRouter(self.router)
+        for p in ports:
+            self.btp.register_indication_callback_btp(port=p, callback=(lambda i, p=p: self.btp_deliveries.append((p, i))))
+        self.btp.freeze_callbacks()
+        # BTPRouter registers nothing on the GN router by itself here; indications are routed by _on_indication
+
+    def record(self, ctx, ev):
+        """run one event on the implementation and remember it (with its geometry tables) for the model"""
+        g, near = None, (False, False)
+        if ev["ev"] == "cbf" and ev.get("key") is None:
+            keys = [list(stack.addr_tuple(kk[0])) + [kk[1]] for kk in self.router._cbf_buffer.keys()]
+            ev["key"] = ctx.rng.choice(keys) if keys else [0, 0, 0, 0]
+        if ev["ev"] == "ls" and ev.get("sought") is None:
+            keys = [list(stack.addr_tuple(kk)) for kk in self.router._ls_timers.keys()]
+            ev["sought"] = ctx.rng.choice(keys) if keys else [0, 0, 0]
+        if ev["ev"] in ("rx", "geo", "guc") or (ev["ev"] == "btp" and ev["gn"] in ("geo", "guc")):
+            big, ins, dst, near_f, near_d = self.geo_tables(ev.get("area"), list(ev.get("dests") or []))
+            near = (near_f, near_d)
+            g = (big, ins, dst)
+        obs = self.run_event(ev)
+        self.rec_events.append(ev)
+        self.rec_obs.append(obs)
+        self.rec_geos.append(g)
+        self.rec_nears.append(near)
+        return obs
 
     # -- snapshot of observable state ---------------------------------------------------------
     def snapshot(self):
@@ -156,6 +193,27 @@ class Station:
                                         destination=gn_addr(d[2], d[1], d[0]))
                 conf = r.gn_data_request(req)
                 self.last_confirm = getattr(getattr(conf, 'result_code', None), 'value', None)
+            elif k == "btp":
+                from flexstack.btp.service_access_point import BTPDataRequest
+                q = ev["r"]
+                gk = ev["gn"]
+                tcls = TrafficClass(bool(q["scf"]), bool(q["off"]), q["tcid"])
+                if gk == "shb":
+                    ptt = PacketTransportType(HeaderType.TSB, TopoBroadcastHST.SINGLE_HOP)
+                elif gk == "geo":
+                    HST = GeoBroadcastHST if q["ht"] == 4 else GeoAnycastHST
+                    ptt = PacketTransportType(HeaderType(q["ht"]), HST(q["hst"]))
+                else:
+                    ptt = PacketTransportType(HeaderType.GEOUNICAST)
+                d = ev.get("dest") or (0, 0, 0)
+                ar = q.get("area") or (0, 0, 0, 0, 0)
+                self.btp.btp_data_request(BTPDataRequest(
+                    btp_type=CommonNH(ev["btp_type"]), source_port=ev["p2"], destination_port=ev["p1"],
+                    destination_port_info=ev["p2"], gn_packet_transport_type=ptt,
+                    gn_destination_address=gn_addr(d[2], d[1], d[0]),
+                    gn_area=Area(latitude=ar[0], longitude=ar[1], a=ar[2], b=ar[3], angle=ar[4]),
+                    gn_max_hop_limit=q["req_hl"], gn_max_packet_lifetime=None if q["req_ms"] < 0 else q["req_ms"] / 1000,
+                    traffic_class=tcls, data=ev["payload"], length=len(ev["payload"])))
             elif k == "cbf":
                 key = ev["key"]
                 for kk, t in list(r._cbf_buffer.items()):
@@ -209,6 +267,36 @@ class Station:
         return big, ins, dst, near_f, near_d
 
 
+def rx_event_from_octets(station, pkt: bytes, now: int, extra_dests=()):
+    """an rx event for arbitrary octets, with geometry rows for whatever the frame may address"""
+    ev = {"ev": "rx", "kind": "raw", "src": (0, 0, 0), "tst": 0, "pos": (0, 0), "rhl": pkt[3] if len(pkt) > 3 else 0,
+          "mhl": pkt[10] if len(pkt) > 10 else 0, "pai": 0, "scf": 0, "pkt": pkt, "now": now, "raw": True}
+    area, dests = None, {(0, 0)}
+    dests.update(extra_dests)
+    ht = pkt[5] >> 4 if len(pkt) > 5 else 0
+    if len(pkt) >= 56 and ht in (3, 4):
+        lat = int.from_bytes(pkt[40:44], "big", signed=True)
+        lon = int.from_bytes(pkt[44:48], "big", signed=True)
+        a, b, ang = (int.from_bytes(pkt[48 + 2 * i:50 + 2 * i], "big") for i in range(3))
+        area = (lat, lon, a, b, ang, pkt[5] & 15)
+        dests.add((lat, lon))
+    if len(pkt) >= 60 and ht in (2, 6):
+        dests.add((int.from_bytes(pkt[52:56], "big", signed=True), int.from_bytes(pkt[56:60], "big", signed=True)))
+    for off in (12, 16):
+        if len(pkt) >= off + 20:
+            station.positions.add((int.from_bytes(pkt[off + 12:off + 16], "big", signed=True),
+                                   int.from_bytes(pkt[off + 16:off + 20], "big", signed=True)))
+    if area is not None and (area[2] == 0 or area[5] > 2 or (area[5] != 0 and area[3] == 0)):
+        area = None
+    ev["area"] = area
+    ev["dests"] = sorted(dests)
+    if len(pkt) >= 24:
+        off = 12 if ht == 1 or (ht == 5 and (pkt[5] & 15) == 0) else 16
+        if len(pkt) >= off + 8:
+            ev["src"] = ((pkt[off] >> 7) & 1, (pkt[off] >> 2) & 31, int.from_bytes(pkt[off + 2:off + 8], "big"))
+    return ev
+
+
 def put_list(l):
     return [len(l)] + list(l)
 
@@ -238,6 +326,18 @@ def encode_history(station: Station, events, geos):
             a += [3] + put_geo(*g) + put_list(list(ev["r"]) + list(ev["payload"]))
         elif k == "guc":
             a += [4] + put_geo(*g) + list(ev["dest"]) + put_list(list(ev["r"]) + list(ev["payload"]))
+        elif k == "btp":
+            q = ev["r"]
+            pdu = list(stack.pack([(16, ev["p1"]), (16, ev["p2"])])) + list(ev["payload"])
+            if ev["gn"] == "shb":
+                a += [2] + put_list([q["req_ms"], ev["btp_type"], q["scf"], q["off"], q["tcid"]] + pdu)
+            elif ev["gn"] == "geo":
+                ar = q["area"]
+                a += [3] + put_geo(*g) + put_list([q["req_ms"], q["req_hl"], ev["btp_type"], q["ht"], q["hst"], q["scf"], q["off"],
+                                                   q["tcid"], ar[0], ar[1], ar[2], ar[3], ar[4]] + pdu)
+            else:
+                a += [4] + put_geo(*g) + list(ev["dest"]) + put_list([q["req_ms"], q["req_hl"], ev["btp_type"], q["scf"], q["off"],
+                                                                        q["tcid"]] + pdu)
         elif k == "cbf":
             a += [5] + put_list(ev["key"])
         elif k == "ls":
@@ -317,42 +417,31 @@ def canon_state(st, impl: bool):
 
 def run_history(ctx, station: Station, events, relation="Router history = Model.Router.run"):
     """Run on the implementation, then on the model; report mismatches. Returns (impl_trace, model_trace|None,
-    skipped) where skipped is True when a geometric decision was too close to a threshold to compare."""
-    impl, geos, model_events, nears = [], [], [], []
+    truncated) where truncated is True when a geometric verdict was too close to a threshold to compare further."""
+    start = len(station.rec_events)
     for ev in events:
-        g = None
-        near = (False, False)
-        if ev["ev"] == "cbf" and ev.get("key") is None:
-            keys = [list(stack.addr_tuple(kk[0])) + [kk[1]] for kk in station.router._cbf_buffer.keys()]
-            ev["key"] = ctx.rng.choice(keys) if keys else [0, 0, 0, 0]
-        if ev["ev"] == "ls" and ev.get("sought") is None:
-            keys = [list(stack.addr_tuple(kk)) for kk in station.router._ls_timers.keys()]
-            ev["sought"] = ctx.rng.choice(keys) if keys else [0, 0, 0]
-        if ev["ev"] in ("rx", "geo", "guc"):
-            dests = list(ev.get("dests") or [])
-            big, ins, dst, near_f, near_d = station.geo_tables(ev.get("area"), dests)
-            near = (near_f, near_d)
-            g = (big, ins, dst)
-        obs = station.run_event(ev)
-        impl.append(obs)
-        if ev["ev"] != "tick":
-            model_events.append(ev)
-            geos.append(g)
-            nears.append(near)
+        station.record(ctx, ev)
+    impl = station.rec_obs[start:]
+    mtrace, truncated = compare_with_model(ctx, station, relation)
+    if mtrace is not None:
+        k = len([e for e in station.rec_events[:start] if e["ev"] != "tick"])
+        mtrace = mtrace[k:]
+    return impl, mtrace, truncated
+
+
+def compare_with_model(ctx, station: Station, relation="Router history = Model.Router.run"):
+    """replay everything the station has recorded on the extracted model and compare event by event"""
+    events, impl = station.rec_events, station.rec_obs
+    idxs = [i for i, e in enumerate(events) if e["ev"] != "tick"]
     if not ctx.model.available:
-        return impl, None, False
-    flat = ctx.model.call(1, encode_history(station, model_events, geos))
-    mtrace = decode_trace(flat, len(model_events))
-    j = 0
+        return None, False
+    flat = ctx.model.call(1, encode_history(station, [events[i] for i in idxs], [station.rec_geos[i] for i in idxs]))
+    mtrace = decode_trace(flat, len(idxs))
     truncated = False
-    for idx, (ev, obs) in enumerate(zip(events, impl)):
-        if ev["ev"] == "tick":
-            continue
-        m = mtrace[j]
-        near_f, near_d = nears[j]
-        j += 1
+    for j, idx in enumerate(idxs):
+        ev, obs, m = events[idx], impl[idx], mtrace[j]
+        near_f, near_d = station.rec_nears[idx]
         if near_f:
-            # a geometric verdict within the tolerance band: model and code may legitimately differ from here on
             truncated = True
             break
         if m["geomissing"]:
@@ -374,7 +463,7 @@ def run_history(ctx, station: Station, events, relation="Router history = Model.
                                                   "history": [_ev_repr(e) for e in events[:idx + 1]][-12:]}, mv, iv)
             break
     ctx.count(1, "history_compared_with_model" + ("_truncated_at_border_case" if truncated else ""))
-    return impl, mtrace, truncated
+    return mtrace, truncated
 
 
 def _ev_repr(ev):
